@@ -29,7 +29,7 @@ class C16(Pipeline):
             # hostile sub-denomination strings ('..', './', '//', trailing '/', empty), genesis without native metadata
             Gen("TokenFactoryGen", "TokenFactoryGen_subs_cover", "bfs", tiers=("quick",), timeout=300),
             Gen("TokenFactoryGen", "TokenFactoryGen_subs_cover_big", "bfs", tiers=("thorough",), timeout=1200),
-            Gen("TokenFactoryGen", "TokenFactoryGen_sim", "simulate", num=400, depth=14, tiers=("quick",), timeout=300),
+            Gen("TokenFactoryGen", "TokenFactoryGen_sim", "simulate", num=350, depth=14, tiers=("quick",), timeout=300),
             Gen("TokenFactoryGen", "TokenFactoryGen_sim", "simulate", num=1500, depth=14, tiers=("thorough",), timeout=1200)]
     driver_pkg = "drivers/tokenfactory"
     driver_test = "TestDriveTokenFactory"
